@@ -473,3 +473,12 @@ _parser_contract('core.matcher._parse_obj_matcher', ['', 'nil', '5', '5a', 'wl_s
 _parser_contract('core.matcher._parse_arg_matcher', ['', 'x=0', '=', 'x=', '[x=0, y]', '[x]=[0]', 'a=b=c', '"a"', 'nil', '[', 'x=[', '1.5', '*'])
 _parser_contract('core.matcher._parse_arg_value_matcher', ['', '0', '1.5', '"a"', 'pressed', 'nil', '[0, 1 ! 2]', '[', 'a b', '@', 'x@5', '5a', '*', '-', '"'])
 _parser_contract('core.matcher._parse_message_pattern', ['', '*', 'wl_surface', '.commit', 'A: wl_surface.commit(x=0)', 'a.b.c', 'a(b', 'a(b)c', 'A:B:c', '(', '[wl_surface, 5].x', ':', '.', '()', 'x(!)'])
+
+
+from pyvc import contracts as _c
+_c.PROP_NOTES['C05'] = ('Proved (discharged obligations): every Matcher.matches override equals its defining contract (documented meaning per class), writes nothing and raises nothing. '
+                        'Bounded stand-ins, never counted as proved: the parser + simplify against a reference evaluator over generated abstract syntax of the documented grammar '
+                        '(native-only clauses of matcher.parse), WildcardMatcher (regular expression) and EqMatcher (untyped value) against independent references.')
+_c.PROP_NOTES['C12'] = ('Proved: matcher.join against a structural contract (which alternatives / exclusions the result holds), MatcherList.matches = some alternative and no exclusion, '
+                        'parse_and_join error path, command frames. Bounded (native-only clauses): the simplify() step of the command path and the wiring of the filter / breakpoint commands, '
+                        'compared with the statement evaluated on the unsimplified pieces.')
